@@ -168,9 +168,22 @@ def run_one(tape, cfg):
             meta = df.iloc[:0]
             d = dd.from_delayed([dask.delayed(p) for p in pieces], meta=meta, verify_meta=False)
             on = ["k", "w"] if on_two else "k"
+            via_selection = tape.chance(1, 3, "via_selection")
+            if via_selection:
+                out.probe("partitions_selected_individually")
+
+            def parts_of(r):
+                """Output partitions one by one: as delayed objects, or as separate single-partition
+                selections of the frame (r.partitions[i]) evaluated in ONE computation."""
+                if via_selection:
+                    # (the number of partitions that really exist: r.npartitions of a lazy sort can be
+                    # larger than what the computed divisions yield)
+                    return dask.compute(*[r.partitions[i] for i in range(len(r.to_delayed()))])
+                return dask.compute(*r.to_delayed())
+
             if op == "shuffle":
                 r = d.shuffle(on, npartitions=nout, shuffle_method=method, max_branch=max_branch)
-                parts = dask.compute(*r.to_delayed())
+                parts = parts_of(r)
                 got = pd.concat(parts) if parts else df.iloc[:0]
                 if sorted(got["v"].tolist()) != list(range(n)) or not got.sort_values("v").reset_index(
                         drop=True).equals(df.sort_values("v").reset_index(drop=True)):
@@ -198,7 +211,7 @@ def run_one(tape, cfg):
                                   shuffle_method=method)
                 # partition by partition: .compute() of the whole frame may be optimised into a
                 # single-partition sort, which would hide the partitioned sort
-                parts = dask.compute(*r.to_delayed())
+                parts = parts_of(r)
                 got = pd.concat(parts) if parts else df.iloc[:0]
                 want = df.sort_values(by, ascending=ascending, na_position=na_position, kind="stable")
                 gk = got["k"].astype(object).where(got["k"].notna(), "<NA>").tolist()
@@ -223,7 +236,7 @@ def run_one(tape, cfg):
                     out.status = "discard"
                     return out
                 r = d.set_index("k", npartitions=nout, shuffle_method=method)
-                parts = dask.compute(*r.to_delayed())
+                parts = parts_of(r)
                 got = pd.concat(parts) if parts else None
                 want = df.set_index("k").sort_index(kind="stable")      # nulls last, as in dask
 
